@@ -67,9 +67,9 @@ PROPS['C03'] = dict(
     assumptions=[EXACT, SAN],
 )
 PROPS['C04'] = dict(
-    units=[dict(target=T('h_prim', parts=5), quick=dict(scale=1.0), thorough=dict(scale=6.0, shards=16))],
+    units=[dict(target=T('h_prim', parts=6), quick=dict(scale=1.0), thorough=dict(scale=6.0, shards=16))],
     rule=('full template matrix Dx<n> n=0..5 x order 0..5, X<n> n=0..5 x order 0..4, identity x order 0..5 (per-combination counters in per_subcheck.classes), random grids incl. far from origin, '
-          'all window kinds, Q (all), double / long double (n <= 3, dyadic inputs for which the operation is exact) and the integer-like scalar `long` (n <= 3, integer grid points of equal parity and integer coefficients, so every quantity the library forms is an integer). Oracle: n-fold derivative / multiplication by x^n of the absolute-basis model, result order, same window, '
+          'all window kinds, Q (all), double / long double (n <= 3, dyadic inputs for which the operation is exact) and the integer-like scalar `long` (n <= 3, integer grid points of equal parity and integer coefficients, so every quantity the library forms is an integer) and GMP mpq_class used directly as the scalar (an exact type whose operators return expression templates). Oracle: n-fold derivative / multiplication by x^n of the absolute-basis model, result order, same window, '
           'zero outside the operand, identity == operand. Non-trivial: non-zero function and (n >= order-1, or |x| > 4, or strict sub-window, or n >= 2 for X).'),
     technique='rapidcheck generation over the (n, order) template matrix against exact polynomial calculus in the absolute basis',
     level_text='Exact generated-input search over every compiled (n, order) instantiation; sampling of coefficients/grids, not proof; template parameters limited to the compiled matrix.',
@@ -440,7 +440,7 @@ def _c19_units():
           dict(target=T('h_archetype_static', kind='plain', extra_flags=['-O1']), quick=dict(args=a(), scale=1.0), thorough=dict(args=a(), scale=1.0)),
           dict(target=T('h_gen', parts=4), quick=dict(args=a('--prefix', 'exact'), scale=0.25), thorough=dict(args=a('--prefix', 'exact'), scale=1.0, shards=4)),
           dict(target=T('h_arith', parts=4), quick=dict(args=a(), scale=0.2), thorough=dict(args=a(), scale=1.0, shards=4)),
-          dict(target=T('h_prim', parts=5), quick=dict(args=a(), scale=0.25), thorough=dict(args=a(), scale=1.0, shards=4)),
+          dict(target=T('h_prim', parts=6), quick=dict(args=a(), scale=0.25), thorough=dict(args=a(), scale=1.0, shards=4)),
           dict(target=T('h_interp', parts=4), quick=dict(args=a('--prefix', 'exact-solver'), scale=0.3), thorough=dict(args=a('--prefix', 'exact-solver'), scale=1.0, shards=4))]
     for k in (0, 1, 2):
         t = T('cat_%02d' % k, src=['harness/expr_catalog/cat_%02d.cpp' % k], deps=['harness/expr_common.h'])
